@@ -324,8 +324,9 @@ def build_functions(W):
         add(f"{mname}.pairing", "pairing", [f"P:{mname}:G2", f"P:{mname}:G1"], pm.pairing, cost=10, result_tag=E12)
         add(f"{mname}.pairing_raw", "pairing", [f"P:{mname}:G2", f"P:{mname}:G1"],
             lambda q, p, _pm=pm: _pm.pairing(q, p, final_exponentiate=False), cost=4, result_tag=E12)
-        if mname == "optimized_bls12_381":
-            add(f"{mname}.final_exponentiate", "pairing", [E12], pm.final_exponentiate, cost=6, result_tag=E12)
+        add(f"{mname}.final_exponentiate", "pairing", [E12], pm.final_exponentiate,
+            cost=6 if mname == "optimized_bls12_381" else 12, result_tag=E12)
+        if hasattr(pm, "exp_by_p"):
             add(f"{mname}.exp_by_p", "pairing", [E12], pm.exp_by_p, cost=0, result_tag=E12)
     # ---- hashing ----------------------------------------------------------------------------------------------
     import hashlib as hl
@@ -757,6 +758,13 @@ def t_pinned(ctx):
         {"f": "bn128_FQ2.mul", "args": [{"c": "py_ecc.bn128.b2"}, {"c": "py_ecc.bn128.b2"}]},
         {"f": "secp.sign_recover", "args": [lit(bytes(range(32))), lit(b"\x12" * 32)]},
         {"f": "pop.PopProve", "args": [lit(5)]},
+        {"f": "optimized_bn128.final_exponentiate", "args": [{"c": "py_ecc.optimized_bn128.optimized_curve.w"}]},
+        {"f": f"{OB}.final_exponentiate", "args": [{"c": f"{op}.exptable[7]"}]},
+        {"f": "optimized_bn128.final_exponentiate", "args": [{"c": "py_ecc.optimized_bn128.optimized_curve.w"}]},
+        {"f": "pop.Sign", "args": [lit(5), {"r": 17}]},
+        {"f": "basic.Sign", "args": [lit(5), lit(b"message")]},
+        {"f": "pop.Sign", "args": [lit(5), lit(b"message")]},
+        {"f": "aug.Sign", "args": [lit(5), lit(b"message")]},
     ]
     n = len(steps)
     case = {"steps": steps, "fresh": [[list(range(n))[::-1], []], [list(range(0, n, 2)) + list(range(1, n, 2)), ["py_ecc.bn128"]]]}
